@@ -155,3 +155,19 @@ Definition zat_div_with_remainder (a d : Z) : Z * Z := (a / d, a mod d).
 Definition zat_neg (z : Z) : outcome Z unit := zb_neg (i64_of_u64 z).
 Definition zb_from_zat (z : Z) : Z := i64_of_u64 z.
 Definition zat_try_from_zb (a : Z) : res := zat_from_nonnegative_i64 a.
+
+(** * [const fn] constructors: [assert!] on the range, so [Panic] is the documented failure
+    signal outside it; inside, the value is returned unchanged ([amount as i64] for u64). *)
+Definition zb_const_from_i64 (x : Z) : outcome Z unit :=
+  if (- MAX_BALANCE <=? x) && (x <=? MAX_BALANCE) then Ok x else Panic.
+Definition zb_const_from_u64 (x : Z) : outcome Z unit :=
+  if x <=? MAX_MONEY then Ok (i64_of_u64 x) else Panic.
+Definition zat_const_from_u64 (x : Z) : outcome Z unit :=
+  if x <=? MAX_MONEY then Ok x else Panic.
+
+(** Sign predicates: [i64::is_positive]/[is_negative] on the wrapped value; [Zatoshis]
+    compares with [Zatoshis::ZERO]. *)
+Definition zb_is_positive (a : Z) : bool := 0 <? a.
+Definition zb_is_negative (a : Z) : bool := a <? 0.
+Definition zat_is_zero (z : Z) : bool := z =? 0.
+Definition zat_is_positive (z : Z) : bool := 0 <? z.
